@@ -51,6 +51,7 @@ struct Cfg
 {
   int K;
   int capacity;   // 0 = default constructor
+  int capacityB;  // capacity of the second variable; -1 = same as the first
   int hashMode;
   bool selfOps;
   bool twoVars;   // operations involving the second variable B (swap, copy, assignment, set append/remove)
@@ -82,14 +83,14 @@ struct H
   enum { APPEND, PREPEND, INSERT, REMK, REMI, REMF, REMB, CLEAR, SWAP, COPY, ASSIGN_BA, ASSIGN_AB, SETAPPEND, SETREMOVE,
          SELFASSIGN, SELFSWAP, SETAPPENDSELF, SETREMOVESELF, INSOWN, REMVAL, REMOWNKEY };
 
-  C* make() { C* c = 0; if(cfg.capacity) LIB(c = new C((usize)cfg.capacity)); else LIB(c = new C()); return c; }
+  C* make(int capacity) { C* c = 0; if(capacity) LIB(c = new C((usize)capacity)); else LIB(c = new C()); return c; }
 
   H(const Cfg& c) : cfg(c), nextTag(100), opsValid(false), ptag("C02")
   {
     vf::reg().reset();
     vf::reg().hashMode = cfg.hashMode;
     vf::ledger().live_blocks = 0; vf::ledger().live_bytes = 0;
-    v[0] = make(); v[1] = make();
+    v[0] = make(cfg.capacity); v[1] = make(cfg.capacityB < 0 ? cfg.capacity : cfg.capacityB);
     faults();
   }
 
@@ -465,11 +466,13 @@ int main(int argc, char** argv)
   Cfg c;
   c.K = (int)vf::argll(argc, argv, "--keys", 3);
   c.capacity = (int)vf::argll(argc, argv, "--capacity", 0);
+  c.capacityB = (int)vf::argll(argc, argv, "--capacityB", -1);
   c.hashMode = (int)vf::argll(argc, argv, "--hash", 0);
   c.selfOps = vf::flag(argc, argv, "--selfops");
   c.twoVars = !vf::flag(argc, argv, "--onevar");
   static const char* hm[] = {"identity", "constant", "mod2"};
   std::string label = vf::fmt(CNAME " K=%d cap=%d hash=%s%s", c.K, c.capacity ? c.capacity : 500, hm[c.hashMode], c.selfOps ? " selfops" : "");
   if(!c.twoVars) label += " onevar";
+  if(c.capacityB >= 0) label += vf::fmt(" capB=%d", c.capacityB ? c.capacityB : 500);
   return vf::bfs_main<H, Cfg>(argc, argv, c, label, 64);
 }
